@@ -58,6 +58,15 @@ def make_module(a):
     if c == 'OpenInterval':
         lo, hi = [(0.0, 1.0), (-2.0, 3.0)][a['opt']]
         return M.OpenInterval(lo, hi, bs, dtype=dt)
+    # complex descriptors without the batch size 1 go through the documented wrappers of manifold/_compose.py (quantum_state, density_matrix,
+    # quantum_gate), which forward to the same classes: both construction routes stay exercised
+    via_wrapper = a['cplx'] and a['batch'] != 1
+    if c == 'Trace1PSD' and via_wrapper:
+        return M.density_matrix(a['d'], a['r'] or None, bs, a['method'], dtype=dt)
+    if c == 'Sphere' and via_wrapper:
+        return M.quantum_state(a['d'], bs, a['method'], dtype=dt)
+    if c == 'SpecialOrthogonal' and via_wrapper:
+        return M.quantum_gate(a['d'], bs, a['method'], cayley_order=a['opt'], dtype=dt)
     if c == 'Trace1PSD':
         return M.Trace1PSD(a['d'], a['r'] or None, bs, a['method'], dtype=dt)
     if c == 'SymmetricMatrix':
@@ -326,7 +335,7 @@ def run(ctx):
                 % ('' if quick else ',3', 4 if quick else 6, 'a seeded sample with one descriptor from every (class, method, field, precision, batch, magnitude, option) cell and every (class, method, field, dim, rank) cell' if quick else 'all', SCALE))
     ctx.assumptions = ['TLC/SANY correct', 'membership up to the rounding tolerance: 2.5% of the squared scale for quadratic constraints, 1-3 units for linear ones',
                        'theta uniform in [-m, m]^n for the magnitude m of the descriptor (10 is the bound of the Cholesky-L map: m <= 2 there; exp up to 20)']
-    ctx.not_covered = ['membership finer than the rounding tolerance (e.g. STRICT inequality of the open ball / open interval at saturation)', 'ABkHermitian / ABk2localHermitian helper classes', 'the thin wrappers quantum_state / density_matrix / quantum_gate of manifold/_compose.py (they forward to Sphere / Trace1PSD / SpecialOrthogonal, which are covered)',
+    ctx.not_covered = ['membership finer than the rounding tolerance (e.g. STRICT inequality of the open ball / open interval at saturation)', 'ABkHermitian / ABk2localHermitian helper classes',
                        'devices other than the CPU']
     ctx.tolerances = dict(scale=SCALE, quadratic='1/40 of the squared scale', same='3 units')
     r = tlc.run('manifold/MC_ManifoldArgs.tla', 'manifold/MC_ManifoldArgs_%s.cfg' % ('q' if quick else 't'), dump=True, timeout=3000)
